@@ -633,11 +633,160 @@ func b2i(b bool) int {
 	return 0
 }
 
+
+// e12AfterReconnectCase: the watch dropped once and was re-established by the
+// reconnect delay (no relist since); then the controller is closed or its next
+// list fails.  Everything closes.
+func e12AfterReconnectCase(seed uint64, n int) Case {
+	mech := []string{"close", "list-error", "cancel"}[n%3]
+	id := fmt.Sprintf("E12/after-reconnect/%s/%d/%d", mech, seed, n)
+	return Case{ID: id, Desc: map[string]interface{}{"mechanism": mech, "what": "closed after a watch reconnect through the retry delay"}, Bubble: true, Run: func(r *Res) {
+		rng := kit.NewRng(kit.Mix(seed, uint64(n)+1299))
+		core := kit.NewCore(&kit.Plan{Seed: rng.U64(), PYield: 100, PSleep: 20, MaxSleep: 60 * time.Microsecond})
+		srv := kit.NewPodServer(core)
+		u := smallUniverse()
+		for i := 0; i < 4; i++ {
+			u.mutate(rng, srv)
+		}
+		var fail atomic.Bool
+		srv.ListPlan = func(i int) kit.ListFault {
+			if fail.Load() {
+				return kit.ListFault{Kind: kit.ListErr}
+			}
+			return kit.ListFault{}
+		}
+		srv.WatchPlan = func(i int) kit.WatchFault {
+			f := kit.NoWatchFault()
+			if i <= 1+n%2 {
+				f.CloseAfter = 2
+			}
+			return f
+		}
+		P := 10 * time.Second
+		g, err := newCtlRig(core, srv, P, nil)
+		if err != nil {
+			r.Inc(err.Error())
+			return
+		}
+		t := newTree(g.ctl)
+		if err := t.grow(rng, 5, 3, filterFamily(), childKinds, true); err != nil {
+			r.V("C11", "tree-build-error", "%v", err)
+			return
+		}
+		if !waitCh(g.ctl.Ready(), virtBound) {
+			r.V("C11", "never-ready", "controller not ready")
+			return
+		}
+		for k := 0; k < 1+n%2; k++ {
+			u.mutate(rng, srv)
+			u.mutate(rng, srv) // the stream ends
+			time.Sleep(kcache.VerifWatchRetryDelay + 200*time.Millisecond) // reconnected
+		}
+		u.mutate(rng, srv)
+		g.barrier()
+		switch mech {
+		case "close":
+			go g.ctl.Close()
+		case "cancel":
+			g.cancel()
+		case "list-error":
+			fail.Store(true)
+		}
+		bound := 2*P + 10*time.Second
+		for _, nd := range t.nodes {
+			if !waitCh(nd.done, bound) {
+				r.V("C11", "descendant-not-closed", "the watch had been re-established through the reconnect delay; %s: %s is not done %v later (controller Error() = %v)\n%s", mech, nd, bound, g.ctl.Error(), kit.CensusText(kit.Census(), 12))
+				g.cancel()
+				return
+			}
+			r.Add("subtree-nodes-checked", 1)
+		}
+		g.cancel()
+		g.barrier()
+		if gs := kit.Census(); len(gs) > 0 {
+			r.V("C12", "goroutine-leak", "closed after a reconnect (%s): %d library goroutines remain: %v", mech, len(gs), kit.CensusKeys(gs))
+		}
+		r.Key(id)
+	}}
+}
+
+// e12TailCase: a burst of events immediately followed by the shutdown of the
+// root: every subscriber - plain, filtered (accept-all) and below filtered
+// clones - still receives everything that was published before its Events()
+// channel is closed.
+func e12TailCase(seed uint64, n int) Case {
+	id := fmt.Sprintf("E12/burst-then-stop/%d/%d", seed, n)
+	return Case{ID: id, Desc: map[string]interface{}{"n": n, "what": "buffered events are delivered before Events() is closed, at filtered nodes too"}, Bubble: true, Run: func(r *Res) {
+		rng := kit.NewRng(kit.Mix(seed, uint64(n)+1298))
+		core := kit.NewCore(&kit.Plan{Seed: rng.U64(), PYield: 100, PSleep: 30, MaxSleep: 80 * time.Microsecond})
+		g := newRootRig(core, nil)
+		u := smallUniverse()
+		g.root.MakeReady()
+		t := newTree(g.root.Publisher())
+		var leaves []*node
+		for _, k := range []string{"sub", "subwf", "clonewf", "subff"} {
+			nd, err := t.addChild(t.root, k, kit.TNull(), true)
+			if err != nil {
+				r.V("C11", "tree-build-error", "%v", err)
+				return
+			}
+			if nd.deferred {
+				nd.refilt(kit.TNull())
+				nd.filter, nd.supplied = kit.TNull(), true
+			}
+			if nd.isController() {
+				if nd, err = t.addChild(nd, "sub", nil, true); err != nil {
+					r.V("C11", "tree-build-error", "%v", err)
+					return
+				}
+			}
+			leaves = append(leaves, nd)
+		}
+		g.barrier()
+		for _, l := range leaves {
+			if l.mir != nil {
+				l.mir.seed(kit.Snap{})
+			}
+		}
+		k := 10 + rng.Intn(40)
+		for i := 0; i < k; i++ {
+			g.mutate(rng, u)
+		}
+		g.root.Stop() // at once: the events are still on their way down
+		for _, l := range leaves {
+			if !waitCh(l.done, virtBound) {
+				r.V("C11", "descendant-not-closed", "%s not done after the root stopped", l)
+				return
+			}
+		}
+		g.barrier()
+		sent := g.sent
+		for _, l := range leaves {
+			r.Add("subtree-nodes-checked", 1)
+			if !l.mir.isClosed() {
+				r.V("C11", "events-not-closed", "%s: Events() not closed after the root stopped", l)
+				continue
+			}
+			if got := l.mir.events(); len(got) != len(sent) {
+				r.V("C11", "events-closed-before-buffered-events", "%d events were published and the root stopped at once; %s received %d of them before its Events() channel was closed (last: %s)", len(sent), l, len(got), tailEvents(got, 3))
+			}
+		}
+		g.stop(r, "C12")
+		r.Key(id)
+	}}
+}
+
 func init() {
 	register("E12", func(tier string, seed uint64) []Case {
 		var cases []Case
 		for i := 0; i < tierPick(tier, 12, 600); i++ {
 			cases = append(cases, e12OverrunCase(seed, i, []string{"catch-up", "refilter"}[i/2%2]))
+		}
+		for i := 0; i < tierPick(tier, 12, 300); i++ {
+			cases = append(cases, e12AfterReconnectCase(seed, i))
+		}
+		for i := 0; i < tierPick(tier, 16, 600); i++ {
+			cases = append(cases, e12TailCase(seed, i))
 		}
 		for tr := 0; tr < tierPick(tier, 4, 60); tr++ {
 			K := tierPick(tier, 20, 60)
